@@ -23,6 +23,8 @@ def parseBits (s : String) : Option Val :=
 
 def showBits (v : Val) : String := if v.isEmpty then "-" else String.ofList (v.reverse.map fun b => if b then '1' else '0')
 
+def parseInt (s : String) : Int := if s.startsWith "-" then -((s.drop 1).toString.toNat! : Int) else (s.toNat! : Int)
+
 def parseSel (s : String) : Option Sel :=
   match s.splitOn ":" with
   | ["s", a, b] => some (.slice a.toNat! b.toNat!)
@@ -30,6 +32,13 @@ def parseSel (s : String) : Option Sel :=
   | ["db", a] => some (.dynBit a.toNat!)
   | ["dp", a, b] => some (.dynPart a.toNat! b.toNat!)
   | ["ds", a, b] => some (.dynSlice a.toNat! b.toNat!)
+  -- q:<form>:<a>:<b>   Selection::All() / From(a) / Range(a,b) / RangeIncl(a,b) / Slice(a,b) / Symbol(a, b_b)
+  | ["q", "A", _, _] => some (.sel .all)
+  | ["q", "F", a, _] => some (.sel (.from (parseInt a)))
+  | ["q", "R", a, b] => some (.sel (.range (parseInt a) (parseInt b)))
+  | ["q", "I", a, b] => some (.sel (.rangeIncl (parseInt a) (parseInt b)))
+  | ["q", "L", a, b] => some (.sel (.slice a.toNat! b.toNat!))
+  | ["q", "Y", a, b] => some (.sel (.symbol (parseInt a) b.toNat!))
   | _ => none
 
 def parsePath (k : Tok) : Option (List Sel × Tok) := do
@@ -101,10 +110,14 @@ partial def hasI : List PStmt → Bool
   | .ifS _ b :: r | .elseS b :: r | .elseifS _ b :: r | .elseIf2 _ b :: r => hasI b || hasI r
   | _ :: r => hasI r
 
+def selName : Sel → String
+  | .slice .. => "w:slice" | .bit _ => "w:bit" | .dynBit _ => "w:dynBit" | .dynPart .. => "w:dynPart" | .dynSlice .. => "w:dynSlice"
+  | .sel .all => "w:sel:All" | .sel (.from _) => "w:sel:From" | .sel (.range ..) => "w:sel:Range" | .sel (.rangeIncl ..) => "w:sel:RangeIncl"
+  | .sel (.slice ..) => "w:sel:Slice" | .sel (.symbol ..) => "w:sel:Symbol"
+
 def parseKind (s : String) : Option IKind :=
   match s with | "u" | "z" => some .u0 | "s" => some .s | "o" => some .u1 | _ => none
 
-def parseInt (s : String) : Int := if s.startsWith "-" then -((s.drop 1).toString.toNat! : Int) else (s.toNat! : Int)
 
 def toks (line : String) : Tok := { t := ((line.trimAscii.toString.splitOn " ").filter (· ≠ "")).toArray }
 
@@ -204,7 +217,7 @@ partial def parseStmts (h : IO.FS.Stream) (hist : Hist) (depth : Nat) : IO (Opti
       | some (p, k) =>
         let (_, k) := k.next
         for s in p do
-          hist := hist.bump (match s with | .slice .. => "w:slice" | .bit _ => "w:bit" | .dynBit _ => "w:dynBit" | .dynPart .. => "w:dynPart" | .dynSlice .. => "w:dynSlice")
+          hist := hist.bump (selName s)
         if p.isEmpty then hist := hist.bump "w:whole"
         if p.length ≥ 2 then hist := hist.bump "w:nested"
         match parseExpr k with
@@ -340,6 +353,15 @@ partial def loop (h : IO.FS.Stream) (d : D) (c : Case) : IO D := do
     if c.built.isSome then
       IO.println s!"DIFF case={c.id} what=frontend-threw-model-accepts msg={k1.t.getD 1 ""}"
       d := { d with diffs := d.diffs + 1 }
+      -- if the sequential interpreter runs the program (all-zero inputs) it is a program of the class that cannot be built at all:
+      -- a concrete failing input for the property, too
+      let ρ0 := c.ins.map fun ty => List.replicate ty.width false
+      let runs := match c.prog with
+        | some p => if c.useX then (runX p ⟨ρ0, [], []⟩ true none).isSome else (run p ρ0 none).isSome
+        | none => false
+      if runs then
+        IO.println s!"PROPFAIL case={c.id} sig=frontend-rejects-program-of-the-class stage=build inputs=[all zero] msg=[{k1.t.getD 1 ""}]"
+        d := { d with propfails := d.propfails + 1 }
     else d := { d with rejected := d.rejected + 1 }
     loop h d { c with reported := true }
   | "crash" =>
